@@ -57,6 +57,7 @@ func rawRequest(sp *reqSpec) string {
 
 // exchange writes raw bytes to a fresh connection and reads the whole answer.
 func (w *world) exchange(raw string) (status int, head string, err error) {
+	defer w.progress.Add(1)
 	c, err := net.DialTimeout("tcp", w.addr, wireTimeout)
 	if err != nil {
 		return 0, "", fmt.Errorf("dial: %w", err)
